@@ -195,6 +195,20 @@ theorem listener_never_panics (acl : Acl) (ms : List Decoded) :
   obtain ⟨m, _, rfl⟩ := List.mem_map.1 ho
   exact handleMessage_never_panics acl m
 
+/-- a listener loop that does not leave on an error handles every message of the stream -/
+theorem runListener_handles_all (acl : Acl) (ms : List Decoded) :
+    runListener false acl ms = ms.map (handleMessage acl) := by
+  induction ms with
+  | nil => rfl
+  | cons m ms ih =>
+    unfold runListener
+    cases h : handleMessage acl m <;> simp [ih, h]
+
+/-- one that leaves on an error stops handling at the first refused message -/
+theorem runListener_stopping_drops_later (acl : Acl) (m : Decoded) (ms : List Decoded)
+    (h : handleMessage acl m = .err) : runListener true acl (m :: ms) = [.err] := by
+  unfold runListener; rw [h]; rfl
+
 /-! ## non-vacuity -/
 
 section Examples
